@@ -123,9 +123,12 @@ func C11(tier string) {
 		if strings.Contains(s.name, "LineariseColor vs EncodeColor") || strings.HasPrefix(s.name, "srgb+displayp3/") {
 			return deep + 1
 		}
+		if s.threads >= 4 || strings.Contains(s.name, "parallelism 11") || strings.Contains(s.name, "x3 png jpeg webp") {
+			return deep - 1
+		}
 		return deep
 	}
-	r.Rule(fmt.Sprintf("%d scenarios on the overlay-instrumented real code, fresh package state per execution: first-use races of the lazily built 16-bit tables (2 and 3 goroutines, 1-2 calls each, per space and across srgb/displayp3), image transforms and prism.ConvertImageTo* with parallelism 2 and 3 on 3x2 images down every destination path (tables first touched inside the workers), two image transforms at once, two concurrent Loads per loader, concurrent adaptations; 2-goroutine single-call first-use scenarios: ALL interleavings of hooked operations; the others: all schedules with <= %d preemptions (one more for the two-call colour scenarios); every execution is checked by a vector-clock happens-before race detector (edges: go, Once, WaitGroup, Mutex) and against each call's value when executed alone; plus a free-running go build -race pass of the same scenario bodies; states = scheduling decision points, transitions = thread switches taken, traces = executions", len(scens), deep))
+	r.Rule(fmt.Sprintf("%d scenarios on the overlay-instrumented real code, fresh package state per execution: first-use races of the lazily built 16-bit tables (2 and 3 goroutines, 1-2 calls each, per space and across srgb/displayp3), image transforms and prism.ConvertImageTo* with parallelism 2 and 3 on 3x2 images down every destination path (tables first touched inside the workers), two image transforms at once, two concurrent Loads per loader, concurrent adaptations; 2-goroutine single-call first-use scenarios: ALL interleavings of hooked operations; the others: all schedules with <= %d preemptions (one more for the two-call colour scenarios); every execution is checked by a vector-clock happens-before race detector (edges: go, Once, WaitGroup, Mutex) and against each call's value when executed alone; plus a free-running go build -race pass of the same scenario bodies and of four larger image workloads (100x120, more than 20,000 table look-ups) that are too big to explore; states = scheduling decision points, transitions = thread switches taken, traces = executions", len(scens), deep))
 	r.Assume("interleavings are sequentially consistent; weak-memory behaviours are covered through the race oracle (race-free programs have only SC executions); consecutive same-kind accesses by one goroutine to the same 8-byte cell are one scheduling step; accesses through pointers whose address was taken, and code outside the instrumented packages, are covered only by the free-running -race pass")
 
 	var mu sync.Mutex
@@ -139,6 +142,19 @@ func C11(tier string) {
 		go func() {
 			defer wg.Done()
 			defer func() { <-sem }()
+			freeOnly := strings.HasPrefix(s.name, "free/")
+			if freeOnly {
+				fc := exec.Command(binRace, "free", s.name, "6")
+				fc.Env = append(os.Environ(), "GORACE=halt_on_error=1")
+				fo, ferr := fc.CombinedOutput()
+				if bytes.Contains(fo, []byte("DATA RACE")) {
+					r.Violate("go-race/"+s.name, fmt.Sprintf("go's race detector on the free-running scenario %q: %s", s.name, firstRace(fo)), map[string]interface{}{"scenario": s.name, "output": tail(fo, 2500)}, nil)
+				} else if ferr != nil || bytes.Contains(fo, []byte("VALUE-MISMATCH")) {
+					r.Violate("free-value/"+s.name, fmt.Sprintf("free-running scenario %q: %v %s", s.name, ferr, tail(fo, 600)), nil, nil)
+				}
+				r.Eval(6)
+				return
+			}
 			cmd := exec.Command(bin, "explore", s.name, fmt.Sprint(boundFor(s)), fmt.Sprint(budget))
 			cmd.Env = append(os.Environ(), "GOMAXPROCS=2")
 			var stderr bytes.Buffer
